@@ -5,8 +5,8 @@ use crate::server::Outcome;
 use crate::util::Tier;
 use oracle::gen::{self, KindMix, Profile, ReParams};
 use oracle::model::{Compiled, ModelOut};
-use oracle::re::Re;
-use oracle::spec::Spec;
+use oracle::re::{plus, Re};
+use oracle::spec::{Inner, Kind, Rule, Spec, Top};
 use proptest::test_runner::TestRunner;
 use proto::{Case, Ctor, Dec};
 
@@ -282,6 +282,39 @@ pub fn cases_from(ctx: &SpecCtx, r: &mut TestRunner, plan: &Plan) -> Vec<Case> {
     out
 }
 
+/// A few long inputs (hundreds to thousands of characters) made of sampled lexemes, kept only if
+/// the reference needs at most `max_steps` symbol reads for them (maximal munch is quadratic or
+/// cubic on adversarial inputs; those are left to C09's bounded inputs).
+pub fn long_cases(ctx: &SpecCtx, comp: &mut Compiled, r: &mut TestRunner, n: usize, target_chars: usize, max_steps: u64) -> Vec<Case> {
+    let res = all_rule_res(ctx);
+    if res.is_empty() {
+        return vec![];
+    }
+    let mut extra: Vec<char> = ctx.foreign.iter().take(1).copied().collect();
+    extra.extend(ctx.reps.iter().take(3));
+    let tapes = gen::tape_strategy(64);
+    let ss = gen::script_strategy(ctx.flat.sets.len() as u32, ctx.flat.fallible, 40);
+    let mut out = vec![];
+    for _ in 0..n {
+        let mut s = String::new();
+        while s.chars().count() < target_chars {
+            let t = sample(&tapes, r);
+            let piece = gen::guided_input(&res, &extra, &t, 8);
+            if piece.is_empty() {
+                s.push(*ctx.reps.first().unwrap_or(&'a'));
+            }
+            s.push_str(&piece);
+        }
+        let case = gen::simple_case(s, sample(&ss, r));
+        let before = comp.steps;
+        let _ = oracle::model::run_model(comp, &case);
+        if comp.steps - before <= max_steps {
+            out.push(case);
+        }
+    }
+    out
+}
+
 fn has_ctx(spec: &Spec) -> bool {
     spec.rules().iter().any(|r| r.ctx.is_some())
 }
@@ -349,6 +382,37 @@ impl Prop for C01 {
             }
             out.push(("long-literals", crate::props2::simple_spec(rules, i % 3 == 0, vec![])));
         }
+        // many rules: 60-300 keywords over a small alphabet (many of them prefixes of each other)
+        // plus an identifier rule and a separator — hundreds of states and actions
+        let kw = proptest::collection::vec(proptest::sample::select(vec!['a', 'b', 'c']), 1..=7);
+        for i in 0..tier.pick(6, 30) {
+            let n = [60usize, 100, 150, 300][i % 4];
+            let mut seen = std::collections::BTreeSet::new();
+            let mut rules = vec![];
+            while rules.len() < n {
+                let w: String = sample(&kw, r).into_iter().collect();
+                if seen.insert(w.clone()) {
+                    rules.push((Re::Str(w), None));
+                }
+            }
+            rules.push((plus(Re::Set(vec![oracle::re::SetItem::R('a', 'c')])), None));
+            rules.push((Re::Char(' '), None));
+            out.push(("many-rules", crate::props2::simple_spec(rules, i % 2 == 0, vec![])));
+        }
+        // many search tables in one lexer: 12-24 rules `'<letter>' C_j+` with pairwise different
+        // table-sized classes (16-24 pieces each), so that a dozen generated lookup tables and
+        // helpers coexist
+        let tapes = gen::tape_strategy(80);
+        for i in 0..tier.pick(4, 16) {
+            let k = [12usize, 17, 24][i % 3];
+            let mut rules = vec![];
+            for j in 0..k {
+                let set = gen::many_piece_set(&sample(&tapes, r), 16 + (i + j) % 9);
+                rules.push((oracle::re::cat(Re::Char((b'a' + j as u8) as char), plus(set)), None));
+            }
+            rules.push((Re::Char(' '), None));
+            out.push(("many-tables", crate::props2::simple_spec(rules, i % 2 == 1, vec![])));
+        }
         out
     }
     fn adjust_spec(&self, mut spec: Spec, r: &mut TestRunner) -> Spec {
@@ -366,8 +430,8 @@ impl Prop for C01 {
         }
         spec
     }
-    fn cases(&self, ctx: &SpecCtx, _c: &mut Compiled, r: &mut TestRunner, tier: Tier) -> Vec<Case> {
-        cases_from(
+    fn cases(&self, ctx: &SpecCtx, c: &mut Compiled, r: &mut TestRunner, tier: Tier) -> Vec<Case> {
+        let mut cs = cases_from(
             ctx,
             r,
             &Plan {
@@ -378,7 +442,9 @@ impl Prop for C01 {
                 script_len: 0,
                 scripts_per_input: 1,
             },
-        )
+        );
+        cs.extend(long_cases(ctx, c, r, 2, 400, 400_000));
+        cs
     }
     fn judge(&self, _ctx: &SpecCtx, _v: &[Case], models: &[ModelOut], gots: &[Outcome]) -> Verdict {
         let (model, t) = match one(models, gots) {
@@ -484,8 +550,49 @@ impl Prop for C03 {
         lit.re.depth = 2;
         vec![(p_sets(), tier.pick(200, 2500)), (lit, tier.pick(120, 1500)), (p_sink(), tier.pick(60, 800))]
     }
+    fn custom_specs(&self, tier: Tier, r: &mut TestRunner) -> Vec<(&'static str, Spec)> {
+        // many rule sets (12-60): a ring ("x" advances and returns) with jumps ("y" switches to
+        // set 7k+3), every set with its own token ids; a few sets get an extra literal rule so
+        // that the sets do not all compile to the same shape
+        let mut out = vec![];
+        let pick = proptest::sample::select(vec!["b", "ab", "xa", "yy", "ax"]);
+        for i in 0..tier.pick(4, 16) {
+            let n = [12u32, 20, 33, 60][i % 4];
+            let mut items = vec![];
+            for k in 0..n {
+                let mut rules = vec![
+                    Rule { re: Re::Str("x".into()), ctx: None, kind: Kind::SwRet((k + 1) % n) },
+                    Rule { re: Re::Str("y".into()), ctx: None, kind: Kind::Sw((k * 7 + 3) % n) },
+                    Rule { re: plus(Re::Char('a')), ctx: None, kind: Kind::Simple },
+                    Rule { re: Re::Char(' '), ctx: None, kind: Kind::Skip },
+                ];
+                if k % 3 == 1 {
+                    rules.insert(
+                        (k as usize) % 4,
+                        Rule { re: Re::Str(sample(&pick, r).to_string()), ctx: None, kind: Kind::Ret },
+                    );
+                }
+                items.push(Top::RuleSet {
+                    name: if k == 0 { "Init".into() } else { format!("S{}", k) },
+                    items: rules.into_iter().map(Inner::Rule).collect(),
+                });
+            }
+            out.push((
+                "many-sets",
+                Spec { extra_attrs: vec![], vis: "pub".into(), items, paren: oracle::spec::ParenStyle::Full },
+            ));
+        }
+        out
+    }
     fn cases(&self, ctx: &SpecCtx, _c: &mut Compiled, r: &mut TestRunner, tier: Tier) -> Vec<Case> {
-        cases_from(ctx, r, &std_plan(tier, true))
+        let mut cs = cases_from(ctx, r, &std_plan(tier, true));
+        if ctx.flat.sets.len() > 10 {
+            let walk = proptest::collection::vec(proptest::sample::select(vec!["x", "y", "y", "a", "aa", " ", "b", "ab"]), 20..150);
+            for _ in 0..tier.pick(300, 1500) {
+                cs.push(gen::simple_case(sample(&walk, r).concat(), vec![]));
+            }
+        }
+        cs
     }
     fn judge(&self, ctx: &SpecCtx, v: &[Case], models: &[ModelOut], gots: &[Outcome]) -> Verdict {
         let (model, t) = match one(models, gots) {
@@ -562,8 +669,77 @@ impl Prop for C04 {
         }
         spec
     }
-    fn cases(&self, ctx: &SpecCtx, _c: &mut Compiled, r: &mut TestRunner, tier: Tier) -> Vec<Case> {
-        cases_from(ctx, r, &std_plan(tier, false))
+    fn custom_specs(&self, tier: Tier, r: &mut TestRunner) -> Vec<(&'static str, Spec)> {
+        // large contexts (hundreds of automaton states): one long string, or a list of 60-150
+        // keywords followed by a terminator; the same lexeme without context as the fallback
+        use oracle::re::{alt, cat};
+        let mut out = vec![];
+        let letters = proptest::sample::select(vec!['a', 'b', 'c', 'd']);
+        for i in 0..tier.pick(6, 24) {
+            let ctx_re = if i % 2 == 0 {
+                let n = [260usize, 300, 520][(i / 2) % 3];
+                let w: String = (0..n).map(|_| sample(&letters, r)).collect();
+                Re::Str(w)
+            } else {
+                let n = [60usize, 100, 150][(i / 2) % 3];
+                let kw = proptest::collection::vec(letters.clone(), 3..=8);
+                let mut seen = std::collections::BTreeSet::new();
+                let mut a: Option<Re> = None;
+                while seen.len() < n {
+                    let w: String = sample(&kw, r).into_iter().collect();
+                    if seen.insert(w.clone()) {
+                        a = Some(match a {
+                            None => Re::Str(w),
+                            Some(x) => alt(x, Re::Str(w)),
+                        });
+                    }
+                }
+                cat(a.unwrap(), Re::Char(';'))
+            };
+            let rules = vec![
+                (Re::Char('&'), Some(ctx_re)),
+                (Re::Char('&'), None),
+                (plus(Re::Set(vec![oracle::re::SetItem::R('a', 'd')])), None),
+                (Re::Char(';'), None),
+            ];
+            out.push(("big-ctx", crate::props2::simple_spec(rules, i % 3 == 0, vec![])));
+        }
+        out
+    }
+    fn cases(&self, ctx: &SpecCtx, c: &mut Compiled, r: &mut TestRunner, tier: Tier) -> Vec<Case> {
+        let mut cs = cases_from(ctx, r, &std_plan(tier, false));
+        cs.extend(long_cases(ctx, c, r, 2, 300, 300_000));
+        if ctx.profile == "big-ctx" {
+            // the context satisfied exactly, cut short at every length class, and with one
+            // character changed at a random position (early, late, last)
+            let tapes = gen::tape_strategy(400);
+            if let Some(cr) = ctx.flat.sets[0].rules[0].ctx.clone() {
+                for _ in 0..tier.pick(60, 300) {
+                    let t = sample(&tapes, r);
+                    let mut tp = gen::Tape::new(&t);
+                    let mut w = String::new();
+                    gen::sample_re(&cr, &mut tp, &mut w, 0);
+                    let chars: Vec<char> = w.chars().collect();
+                    let mut variants = vec![w.clone()];
+                    if !chars.is_empty() {
+                        let k = tp.next(chars.len() as u32) as usize;
+                        variants.push(chars[..k].iter().collect());
+                        let mut m = chars.clone();
+                        let pos = match tp.next(3) {
+                            0 => chars.len() - 1,
+                            1 => chars.len() - 1 - (tp.next(8) as usize).min(chars.len() - 1),
+                            _ => k,
+                        };
+                        m[pos] = if m[pos] == 'a' { 'b' } else { 'a' };
+                        variants.push(m.into_iter().collect());
+                    }
+                    for v in variants {
+                        cs.push(gen::simple_case(format!("&{};&", v), vec![]));
+                    }
+                }
+            }
+        }
+        cs
     }
     fn judge(&self, _ctx: &SpecCtx, _v: &[Case], models: &[ModelOut], gots: &[Outcome]) -> Verdict {
         let (model, t) = match one(models, gots) {
@@ -753,8 +929,48 @@ impl Prop for C06 {
         rw.sets = (1, 1);
         vec![(p_unicode(), tier.pick(200, 2500)), (rw, tier.pick(150, 2000)), (p_sink(), tier.pick(60, 800))]
     }
+    fn custom_specs(&self, _tier: Tier, _r: &mut TestRunner) -> Vec<(&'static str, Spec)> {
+        // `_` alone / `_+` with a newline rule: driven with every scalar value (see cases)
+        vec![
+            ("all-scalars", crate::props2::simple_spec(vec![(Re::Any, None)], false, vec![])),
+            (
+                "all-scalars",
+                crate::props2::simple_spec(
+                    vec![(Re::Char('\n'), None), (plus(oracle::re::diff(Re::Any, Re::Char('\n'))), None)],
+                    true,
+                    vec![],
+                ),
+            ),
+        ]
+    }
     fn cases(&self, ctx: &SpecCtx, _c: &mut Compiled, r: &mut TestRunner, tier: Tier) -> Vec<Case> {
+        if ctx.profile == "all-scalars" {
+            // every scalar value once (control characters are replaced below), a newline every
+            // 997 characters, in chunks of 65 536 characters
+            let mut cs = vec![];
+            let mut s = String::new();
+            let mut n = 0u32;
+            for v in 0..=0x10FFFFu32 {
+                if let Some(ch) = char::from_u32(v) {
+                    s.push(if ch.is_control() { 'x' } else { ch });
+                    n += 1;
+                    if n % 997 == 0 {
+                        s.push('\n');
+                    }
+                    if n % 65_536 == 0 {
+                        cs.push(gen::simple_case(std::mem::take(&mut s), vec![]));
+                    }
+                }
+            }
+            cs.push(gen::simple_case(s, vec![]));
+            return cs;
+        }
         let mut cs = cases_from(ctx, r, &std_plan(tier, true));
+        cs.extend(long_cases(ctx, _c, r, 2, 500, 500_000));
+        if ctx.idx % 8 == 0 {
+            // byte offsets beyond 65 536
+            cs.extend(long_cases(ctx, _c, r, 1, 30_000, 3_000_000));
+        }
         // column of control characters other than newline/tab is not defined by the documentation
         for c in cs.iter_mut() {
             if c.input.chars().any(|ch| ch.is_control() && ch != '\n' && ch != '\t') {
@@ -829,8 +1045,10 @@ impl Prop for C07 {
         d.kinds.fscript = 4;
         vec![(f, tier.pick(200, 2500)), (c, tier.pick(80, 1200)), (d, tier.pick(60, 800)), (p_sink(), tier.pick(60, 800)), (p_real(), tier.pick(60, 800))]
     }
-    fn cases(&self, ctx: &SpecCtx, _c: &mut Compiled, r: &mut TestRunner, tier: Tier) -> Vec<Case> {
-        cases_from(ctx, r, &std_plan(tier, true))
+    fn cases(&self, ctx: &SpecCtx, c: &mut Compiled, r: &mut TestRunner, tier: Tier) -> Vec<Case> {
+        let mut cs = cases_from(ctx, r, &std_plan(tier, true));
+        cs.extend(long_cases(ctx, c, r, 2, 400, 400_000));
+        cs
     }
     fn judge(&self, _ctx: &SpecCtx, _v: &[Case], models: &[ModelOut], gots: &[Outcome]) -> Verdict {
         let (model, t) = match one(models, gots) {
@@ -879,7 +1097,9 @@ impl Prop for C08 {
     fn cases(&self, ctx: &SpecCtx, _c: &mut Compiled, r: &mut TestRunner, tier: Tier) -> Vec<Case> {
         let mut plan = std_plan(tier, true);
         plan.guided = tier.pick(600, 3000);
-        cases_from(ctx, r, &plan)
+        let mut cs = cases_from(ctx, r, &plan);
+        cs.extend(long_cases(ctx, _c, r, 2, 400, 400_000));
+        cs
     }
     fn judge(&self, _ctx: &SpecCtx, _v: &[Case], models: &[ModelOut], gots: &[Outcome]) -> Verdict {
         let (model, t) = match one(models, gots) {
@@ -1048,8 +1268,11 @@ impl Prop for C10 {
         acc.sets = (1, 2);
         vec![(p_actions(), tier.pick(200, 2500)), (acc, tier.pick(140, 1500)), (p_sink(), tier.pick(60, 800)), (p_real(), tier.pick(60, 800))]
     }
-    fn cases(&self, ctx: &SpecCtx, _c: &mut Compiled, r: &mut TestRunner, tier: Tier) -> Vec<Case> {
-        cases_from(ctx, r, &std_plan(tier, true))
+    fn cases(&self, ctx: &SpecCtx, c: &mut Compiled, r: &mut TestRunner, tier: Tier) -> Vec<Case> {
+        let mut cs = cases_from(ctx, r, &std_plan(tier, true));
+        // long runs of continue_ / many actions per input
+        cs.extend(long_cases(ctx, c, r, 2, 600, 600_000));
+        cs
     }
     fn judge(&self, _ctx: &SpecCtx, _v: &[Case], models: &[ModelOut], gots: &[Outcome]) -> Verdict {
         let (model, t) = match one(models, gots) {
@@ -1099,7 +1322,10 @@ impl Prop for C14 {
         let mut plan = std_plan(tier, true);
         plan.exhaustive_cap = tier.pick(500, 3000);
         plan.scripts_per_input = 1;
-        cases_from(ctx, r, &plan)
+        let mut cs = cases_from(ctx, r, &plan);
+        // longer than any plausible internal buffer of the iterator-based constructors
+        cs.extend(long_cases(ctx, _c, r, 2, 1500, 1_500_000));
+        cs
     }
     fn variants(&self, base: &Case) -> Vec<Case> {
         Ctor::ALL
